@@ -403,6 +403,7 @@ pub struct Shared {
     pub next_gid: usize,
     pub next_stream: usize,
     pub next_vid: u64,
+    pub next_ghost: usize,
     pub calls: Vec<CallRec>,
     /// handles returned by finished threads (for the epilogue)
     pub leftovers: Vec<Slot>,
@@ -664,6 +665,13 @@ impl Ctx {
                 pre_stream = Some(self.new_stream());
             }
             Op::IntoMulti(_) if hkind == "BFU" || hkind == "MFU" => pre_stream = Some(self.new_stream()),
+            // the futures into_single clones the receiver and drops the old handle: the clone gets an id
+            Op::IntoSingle(_) if hkind == "BFR" || hkind == "MFR" => {
+                // ghost id (never a real handle): does not disturb the numbering of handles
+                let mut g = self.shared.lock().unwrap();
+                g.next_ghost += 1;
+                pre_gid = Some(1_000_000 + g.next_ghost);
+            }
             _ => {}
         }
         let t0 = self.begin(format!(
